@@ -125,6 +125,46 @@ def inst_tree(blocks, axis, split_every, keepdims):
                     unit="_build_tree_reduce_expr + PartialReduce.chunks/_layer")
 
 
+def inst_tree_structure(blocks, axes, split_every, keepdims=True):
+    """several reduced axes (not executable on the symbolic-array model): the tree built by the real
+    _build_tree_reduce_expr ends with one block on every reduced axis, every level's key grid is the product of its
+    chunks, and every block of every level is consumed by exactly one group of the next level"""
+    def body(E):
+        import dask_array._expr as EXm
+        import dask_array.io._from_array as FAm
+        from dask.core import flatten
+
+        w = W(E)
+        chunks = tuple(tuple(E.int(f"c{a}_{i}", 1) for i in range(m)) for a, m in enumerate(blocks))
+        X = leaf("X", tuple(sum(c) for c in chunks))
+        tmp_chunks = tuple(tuple(1 for _ in c) if a in axes else c for a, c in enumerate(chunks))
+        meta = np.empty((0,) * len(blocks))
+        src = w.space.make(FAm.FromArray, X, chunks, _symx_attrs=dict(_meta=meta, chunks=chunks, _name="x"))
+        tmp = w.space.make(EXm.ChunksOverride, src, tmp_chunks, _symx_attrs=dict(_meta=meta, _name="tmp"))
+        root = w.fn(RD, "_build_tree_reduce_expr")(tmp, np.sum, tuple(axes), keepdims, "f8", split_every, None, "sum", True, None)
+        want = tuple((1,) if a in axes else c for a, c in enumerate(chunks)) if keepdims else \
+            tuple(c for a, c in enumerate(chunks) if a not in axes)
+        E.observe("chunks", [list(c) for c in root.chunks])
+        E.ensure("one-block-on-every-reduced-axis", EQ(tuple(root.chunks), want))
+        node = root
+        while node is not tmp:
+            layer = node._layer()
+            nb = tuple(len(c) for c in node.chunks)
+            E.ensure("level-key-grid", set(layer) == {(node._name,) + g for g in itertools.product(*[range(n) for n in nb])})
+            used = []
+            for t in layer.values():
+                used += [k for k in flatten(t[1]) if isinstance(k, tuple)]
+            below = node.array
+            nb_below = tuple(len(c) for c in below.chunks)
+            E.ensure("every-lower-block-consumed-exactly-once",
+                     sorted(used) == sorted((below.name,) + g for g in itertools.product(*[range(n) for n in nb_below])))
+            node = below
+
+    nm = "x".join(map(str, blocks))
+    return Instance(f"tree_structure[blocks={nm},axes={axes},split_every={split_every},keepdims={keepdims}]", body,
+                    dict(blocks=blocks, axes=axes, split_every=split_every), unit="_build_tree_reduce_expr + PartialReduce.chunks/_layer")
+
+
 # ------------------------------------------------------------------ (b) combine algebra on symbolic data
 
 
@@ -242,8 +282,9 @@ def inst_arg(sizes, which, two_level):
                     unit="arg_chunk/_arg_combine/arg_agg", cost=2 ** n)
 
 
-def inst_arg_nd(chunks, which):
-    """argmin/argmax over all axes (axis=None) of a 2-D array: first extremum in NumPy's flat (row-major) order"""
+def inst_arg_nd(chunks, which, two_level=False):
+    """argmin/argmax over all axes (axis=None) of a 2-D array: first extremum in NumPy's flat (row-major) order;
+    two_level: the blocks of the first two block-columns go through an intermediate arg_combine first"""
     shape = tuple(sum(c) for c in chunks)
 
     def body(E):
@@ -260,6 +301,8 @@ def inst_arg_nd(chunks, which):
                 blk = xs[cs[0][i]:cs[0][i + 1], cs[1][j]:cs[1][j + 1]]
                 row.append(C.arg_chunk(func, argfunc, blk, (0, 1), ((cs[0][i], cs[1][j]), shape)))
             nested.append(row)
+        if two_level and len(chunks[1]) > 2:
+            nested = [[C.arg_combine(argfunc, _concatenate2([row[:2]], axes=[0, 1]), axis=(0, 1))] + row[2:] for row in nested]
         data = _concatenate2(nested, axes=[0, 1])
         res = C.arg_agg(argfunc, data, axis=(0, 1), keepdims=True)
         res = int(np.asarray(res).ravel()[0])
@@ -273,8 +316,8 @@ def inst_arg_nd(chunks, which):
                 conds.append(v >= best if which == "argmin" else v <= best)
         return AND(*conds) if conds else True
 
-    return Instance(f"{which}_flat[chunks={chunks}]", body, dict(chunks=chunks, which=which), unit="arg_chunk/_arg_combine/arg_agg",
-                    cost=2 ** int(np.prod(shape)))
+    return Instance(f"{which}_flat[chunks={chunks},two_level={two_level}]", body, dict(chunks=chunks, which=which, two_level=two_level),
+                    unit="arg_chunk/_arg_combine/arg_combine/arg_agg", cost=2 ** int(np.prod(shape)))
 
 
 def instances(tier):
@@ -311,6 +354,12 @@ def instances(tier):
     out.append(inst_mean((2, 0, 1), True))
     out.append(inst_moment((2, 0, 1), 2, 0, True))
     out.append(inst_moment((0, 2, 2), 2, 1, True))
+    out.append(inst_arg_nd(((2,), (1, 1, 1)), "argmin", two_level=True))
+    out.append(inst_arg_nd(((2,), (1, 1, 1)), "argmax", two_level=True))
+    out.append(inst_tree_structure((2, 8), (0, 1), {0: 4, 1: 2}))
+    out.append(inst_tree_structure((2, 8), (0, 1), {0: 2, 1: 4}))
+    out.append(inst_tree_structure((3, 3), (0, 1), 4, keepdims=False))
+    out.append(inst_tree_structure((4, 2, 3), (0, 2), {0: 2, 2: 2}))
     out.append(inst_arg_nd(((2,), (1, 1)), "argmin"))
     out.append(inst_arg_nd(((1, 1), (2,)), "argmax"))
     out.append(inst_arg_nd(((1, 1), (1, 1)), "argmin"))
